@@ -179,3 +179,47 @@ def counter_seq_case(rng, tuned):
                 f"G=- K=- F=- O=- I=-")
     return (f"e={e} sh={sh} cs=0000 cq={cq}{it} u={u} ss={rng.choice([1, 2, 3, 5])} sc={sc} th={th} "
             f"test={int(rng.random() < 0.25)} p=- G=- K=- F=- O=- I=-")
+
+
+def rand_kept_scripts(rng):
+    """Generator script that allocates and keeps 1-2 buffers (`k`), call script that takes them (`t`) and only
+    resizes and/or frees them: the timed section then contains no allocation at all."""
+    g, f = [], []
+    if rng.random() < 0.3:
+        g += ["a8", "d"]
+    for _ in range(rng.choice([1, 1, 2])):
+        n = rng.choice([2, 16, 24, 100, 1000])
+        g += [f"a{n}", "k"]
+        kind = rng.choice(["grow", "grow", "shrink", "shrink", "free", "grow-shrink", "grow-free", "shrink-grow"])
+        f.append("t")
+        if kind == "grow":
+            f.append(f"g{n + rng.choice([1, 8, 64, 1000])}")
+        elif kind == "shrink":
+            f.append(f"s{rng.randrange(1, n)}")
+        elif kind == "free":
+            f.append("d")
+        elif kind == "grow-shrink":
+            m = n + rng.choice([8, 64])
+            f += [f"g{m}", f"s{rng.randrange(1, m)}"]
+        elif kind == "grow-free":
+            f += [f"g{n + 32}", "d"]
+        else:
+            m = rng.randrange(1, n)
+            f += [f"s{m}", f"g{m + rng.choice([1, 50])}"]
+    return ",".join(g), ",".join(f)
+
+
+E2E_BENCHES = ["rust_abi", "extern_c", "extern_system", "generic_extern_c::u8", "generic_extern_c::String",
+               "generic_rust::u8", "with_arg::1", "with_arg::2", "bencher_plain", "bencher_extern_c",
+               "bencher_arg::1", "bencher_arg::2"]
+
+
+def e2e_cases(rng, tier):
+    """One process of the real-macro binary hx-sample-e2e per case."""
+    out = []
+    for b in E2E_BENCHES:
+        for th in (1, 2):
+            for (ss, sc) in ((4, 3), (1, 1), (2, 5), (3, 2)) if tier != "quick" else ((4, 3), (2, 5)):
+                out.append(f"bench={b} ss={ss} sc={sc} th={th} test=0")
+        out.append(f"bench={b} ss=4 sc=3 th={rng.choice([1, 2, 3])} test=1")
+    return out
